@@ -153,3 +153,30 @@ fn check_append_element(dd: u8) {
 #[kani::proof] #[kani::unwind(34)] fn edge_append_dd2() { check_append_element(2) }
 // The end-to-end harness over external_edge / external_edge_sorted (Vec collect + sort inside) did
 // not finish symbolic execution in 10 min even at depth 0: not registered (stated in the evidence).
+
+/// Loop-free, full-domain twin of the Verus contract `edge_corners_verus` (contracts/verus_edge.py): EVERY delta_depth 1..=29 and
+/// every parent cell number with room for 2*delta_depth more bits, symbolic. A loop-free harness over the full domain is a complete
+/// proof, and unlike the Verus unit it yields a counterexample that is replayed natively.
+#[kani::proof]
+fn edge_corners_all_dd() {
+  let dd: u8 = kani::any();
+  let hash: u64 = kani::any();
+  kani::assume(1 <= dd && dd <= 29);
+  kani::assume(hash < (1u64 << (62 - 2 * dd)));
+  let s = 2 * dd as u32;
+  let low = (1u64 << s) - 1;
+  let ev = 0x5555555555555555u64 & low; // even bits below 2*dd: i maximal, j = 0
+  let od = 0xAAAAAAAAAAAAAAAAu64 & low; // odd bits below 2*dd:  i = 0, j maximal
+  let so = internal_corner(hash, dd, &Cardinal::S);
+  let ea = internal_corner(hash, dd, &Cardinal::E);
+  let we = internal_corner(hash, dd, &Cardinal::W);
+  let no = internal_corner(hash, dd, &Cardinal::N);
+  assert!(so >> s == hash && ea >> s == hash && we >> s == hash && no >> s == hash, "C14 every corner cell is a descendant of the parent");
+  assert!(so & low == 0, "C14 south corner: sub-cell index 0");
+  assert!(ea & low == ev, "C14 east corner: i maximal, j = 0 (all even bits)");
+  assert!(we & low == od, "C14 west corner: i = 0, j maximal (all odd bits)");
+  assert!(no & low == low, "C14 north corner: sub-cell index 4^delta - 1");
+  assert!(x_mask(dd) == ev && y_mask(dd) == od && xy_mask(dd) == low, "C14 masks are the even / odd / all bits below 2*delta");
+  kani::cover!(dd == 29, "delta_depth 29");
+  kani::cover!(dd == 17 && hash == 0, "delta_depth 17");
+}
